@@ -29,6 +29,8 @@ def oracle(scn, res):
     outstanding = False
     for i, (o, out, mtu) in enumerate(zip(scn['ops'], res['outs'], res['mtus'])):
         pdus = [bytes.fromhex(p) for p in out]
+        if res['escaped'][i] == 'hang':
+            yield ('handler-never-finishes', f'op {i} {o[:2]}: a handler task was still running after {ac.STEP_BUDGET} loop rounds')
         if o[0] == 'rx':
             pdu = bytes.fromhex(o[1])
             opc = pdu[0]
@@ -78,8 +80,11 @@ def gen_bearer(rng):
 
 
 def gen_scenario(rng, k, n_ops):
-    db = ac.gen_db(rng)
+    dense = k % 3 == 2
+    db = ac.gen_db_dense(rng) if dense else ac.gen_db(rng)
     bearer = gen_bearer(rng)
+    if dense and rng.chance(3, 4):
+        bearer['mtu'] = rng.choice([23, 24, 25, 26, 27, 28, 29, 30, 31, 32, 33, 34, 35, 36, 40, 48])
     scn = {'db': db, 'bearer': bearer, 'max_mtu': 517 if rng.chance(5, 6) else rng.choice([23, 64, 200, 1000]),
            'ops': []}
     # the model database is needed to aim requests at existing handles: build once
@@ -144,6 +149,35 @@ def gen_initiated_scenario(rng, n_ops):
     return scn
 
 
+def boundary_suite(mtus, wide):
+    """Deterministic scenarios that drive every multi-entry response to its ATT_MTU boundary: a database of 10
+    services with the same UUID, each with a characteristic (same type, same value) and 3 descriptors (same type,
+    same value), read with every ranged / multi-handle request at consecutive ATT_MTUs."""
+    suuid = '180F' if not wide else '0000180F00001000800000805F9B34FA'
+    out = []
+    for mtu in mtus:
+        for vlen in ((0, 1) if mtu % 2 else (2, 3)):
+            val = bytes([0x55] * vlen).hex()
+            services = [{'uuid': suuid, 'primary': True, 'chars': [
+                {'uuid': '2A19', 'props': 0x0A, 'perm': 3, 'value': val, 'rerr': 0, 'werr': 0, 'flavor': 0,
+                 'descs': [{'uuid': '2901', 'perm': 1, 'value': val, 'rerr': 0, 'werr': 0, 'flavor': 0}] * 3}]}
+                for _ in range(10)]
+            sval = bytes.fromhex(suuid)[::-1].hex()
+            hs = [3 + 6 * i for i in range(10)]          # characteristic value handles
+            ds = [4 + 6 * i for i in range(10)] + [5 + 6 * i for i in range(10)]
+            le = lambda n: ac.le16(n).hex()
+            ops = [['rx', '100100ffff0028'], ['rx', '10' + le(7) + 'ffff0028'],
+                   ['rx', '060100ffff0028' + sval], ['rx', '060100ffff0129' + val], ['rx', '060100ffff192a' + val],
+                   ['rx', '080100ffff0328'], ['rx', '080100ffff0129'], ['rx', '080100ffff192a'],
+                   ['rx', '040100ffff'], ['rx', '04' + le(2) + 'ffff'],
+                   ['rx', '0e' + ''.join(le(h) for h in (hs + ds))], ['rx', '20' + ''.join(le(h) for h in (hs + ds))],
+                   ['rx', '20' + ''.join(le(h) for h in ([2] + hs + ds))], ['rx', '0e' + ''.join(le(h) for h in ([2, 1] + ds))]]
+            out.append({'db': {'services': services, 'decl_perm': {}},
+                        'bearer': {'mtu': mtu, 'enc': False, 'auth': False, 'enh': mtu % 3 == 0}, 'max_mtu': 517,
+                        'ops': ops})
+    return out
+
+
 def load_corpus():
     out = []
     for path in sorted(glob.glob(os.path.join(CORPUS, '*.json'))):
@@ -153,16 +187,18 @@ def load_corpus():
 
 
 # ----------------------------------------------------------------------------- run
-def check_scenarios(ctx, scns, label):
-    """run on implementation and model, compare, apply the oracle"""
+def check_scenarios(ctx, labelled):
+    """run [(label, scenario)] on implementation and model, compare, apply the oracle"""
+    from lib.verif import _jobs
+    scns = [s for _, s in labelled]
     impl = [ac.run_impl(s) for s in scns]
     exprs = [ac.coq_scenario(r['db'], s) for s, r in zip(scns, impl)]
-    model = ctx.coq_eval(["Model.AttServer"], exprs, shard=max(4, (len(exprs) + 7) // 8))
-    for k, (s, r, mv) in enumerate(zip(scns, impl, model)):
+    model = ctx.coq_eval(['Model.AttServer'], exprs, shard=max(3, (len(exprs) + _jobs() - 1) // _jobs()))
+    for k, ((label, s), r, mv) in enumerate(zip(labelled, impl, model)):
         m = ac.model_result(mv)
         nreq = sum(1 for o in s['ops'] if o[0] == 'rx' and bytes.fromhex(o[1])[0] in ac.REQUEST_OPCODES)
         ctx.case((label, s), nreq > 0 or label == 'initiated',
-                 {'kind': label, 'bearer': s['bearer'], 'ops': s['ops'][:6], 'outs': r['outs'][:6]} if k % 40 == 1 else None)
+                 {'kind': label, 'bearer': s['bearer'], 'ops': s['ops'][:6], 'outs': r['outs'][:6]} if k % 17 == 1 else None)
         ctx.count(f'{label}.scenarios')
         ctx.count(f'{label}.ops', len(s['ops']))
         ctx.count('bearer.enhanced' if s['bearer'].get('enh') else 'bearer.fixed')
@@ -171,12 +207,12 @@ def check_scenarios(ctx, scns, label):
             if o[0] == 'rx':
                 pdu = bytes.fromhex(o[1])
                 ctx.count('rx.op.0x%02X' % pdu[0] if pdu[0] in ac.REQUEST_OPCODES + [0x52, 0x1E, 0xD2] else 'rx.op.other')
-                for p in out:
-                    ctx.count('tx.op.0x%s' % p[:2])
-                    if p[:2] == '01':
-                        ctx.count('tx.error.0x%s' % p[8:10])
             else:
                 ctx.count('op.' + o[0])
+            for p in out:
+                ctx.count('tx.op.0x%s' % p[:2])
+                if p[:2] == '01':
+                    ctx.count('tx.error.0x%s' % p[8:10])
         ctx.extra.setdefault('opcodes_sent', set()).update(
             bytes.fromhex(o[1])[0] for o in s['ops'] if o[0] == 'rx')
         if m is None:
@@ -186,7 +222,8 @@ def check_scenarios(ctx, scns, label):
                  'values': [ac.digest(bytes.fromhex(v)) for v in r['values']], 'mtu': r['mtu']}
             if m != i:
                 bad = next((j for j, (a, b) in enumerate(zip(m['outs'], i['outs'])) if a != b), None)
-                ctx.disagree(f'{label}: model and implementation differ' + (f' at op {bad} {s["ops"][bad]}' if bad is not None else ' in final values / mtu'),
+                ctx.disagree(f'{label}: model and implementation differ'
+                             + (f' at op {bad} {s["ops"][bad]}' if bad is not None else ' in final values / mtu'),
                              _replay(s), m['outs'][bad] if bad is not None else [m['values'], m['mtu']],
                              i['outs'][bad] if bad is not None else [i['values'], i['mtu']])
         for sig, what in oracle(s, r):
@@ -217,13 +254,13 @@ def run(ctx):
                     'handler set and kind, field layouts, try/except guard of every awaited read_value/write_value, '
                     'constants)']
     rng = ctx.rng
-    corpus = load_corpus()
-    check_scenarios(ctx, [s for _, s in corpus], 'corpus')
-    n = ctx.n(40, 1200)
-    scns = [gen_scenario(rng, k, 60) for k in range(n)]
-    check_scenarios(ctx, scns, 'requests')
-    scns = [gen_initiated_scenario(rng, 40) for _ in range(ctx.n(20, 500))]
-    check_scenarios(ctx, scns, 'initiated')
+    batch = [('corpus', s) for _, s in load_corpus()]
+    batch += [('boundary', s) for s in boundary_suite(range(23, 23 + ctx.n(12, 60)), False)]
+    batch += [('boundary', s) for s in boundary_suite(range(23, 23 + ctx.n(4, 60), 1), True)]
+    batch += [('requests', gen_scenario(rng, k, 60)) for k in range(ctx.n(26, 1200))]
+    batch += [('initiated', gen_initiated_scenario(rng, 40)) for _ in range(ctx.n(10, 400))]
+    for i in range(0, len(batch), 160):
+        check_scenarios(ctx, batch[i:i + 160])
     sent = ctx.extra.pop('opcodes_sent', set())
     ctx.extra['distinct_opcodes_sent'] = len(sent)
     if len(sent) < 256:
